@@ -298,7 +298,7 @@ let lane_tls args =
   | [scheme; stls; nov; connector; answer; cert; hs; extra] ->
       let c = { ldaps = (scheme = "ldaps"); starttls1 = (stls = "1"); no_tls_verify = (nov = "1");
                 custom_connector_accepts_invalid = (if connector = "ca" then Some false else None) } in
-      let ans = (match answer with "success" -> AnsSuccess | "garbage" -> AnsGarbage | "close" -> AnsClose | "otherid" -> AnsOtherIdFirst | "slam" -> AnsSlam | "greet" -> AnsGreetFirst
+      let ans = (match answer with "success" -> AnsSuccess | "garbage" | "rcempty" -> AnsGarbage | "close" -> AnsClose | "otherid" -> AnsOtherIdFirst | "slam" -> AnsSlam | "greet" -> AnsGreetFirst
                  | rc -> AnsRc (n_of_decimal (String.sub rc 2 (String.length rc - 2)))) in
       (* oracle inputs: the certificate is trusted for the host name only when it chains to the CA the connector was given *)
       (* who wins the race between the driver task and the caller is not under the lane's control: the model is asked for both outcomes,
